@@ -183,6 +183,40 @@ def run(ck: Check, prog: Program) -> None:
             ck.finding('RESULT-PASSTHRU', f'{r.cls.qualname}.<rpc chain>', msg[:60], f2.module.rel, line, msg)
 
 
+def validate_always(ck: Check, prog: Program, b: FuncInfo, cfg: Optional[CFG] = None) -> None:
+    """VALIDATE-ALWAYS: every return of bind is preceded by the validation (no fast path that skips it)."""
+    cfg = cfg or CFG(b, prog)
+    val_calls = [(n, c) for n in cfg.stmt_nodes() for c in calls_in(n)
+                 if isinstance(c.func, ast.Attribute) and c.func.attr == 'validate_method']
+    if len(val_calls) != 1:
+        raise AnalysisError(f'{b.qualname}: expected one validate_method call, found {len(val_calls)}')
+    vn, vc = val_calls[0]
+    rets = [n for n in cfg.stmt_nodes() if isinstance(n.ast, ast.Return)]
+    skipping = [r_ for r_ in rets if not cfg.dominated_by(r_, [vn])]
+    # ... and inside its own statement the call is evaluated unconditionally (not an arm of a conditional expression / short-circuit)
+    parents = {}
+    for x in ast.walk(vn.ast):
+        for ch in ast.iter_child_nodes(x):
+            parents[id(ch)] = x
+    cur, cond_in_stmt = vc, None
+    while id(cur) in parents:
+        par = parents[id(cur)]
+        if isinstance(par, ast.IfExp) and par.test is not cur:
+            cond_in_stmt = par.test
+        if isinstance(par, ast.BoolOp) and par.values[0] is not cur:
+            cond_in_stmt = par.values[0]
+        cur = par
+    if cond_in_stmt is not None and not skipping:
+        skipping = rets[:1]
+    ck.ob('VALIDATE-ALWAYS', f'{short(b.qualname)}: parameters are bound/validated on every path before the call is prepared', not skipping)
+    for r_ in skipping:
+        gs = [norm(g.src.ast) + ':' + g.label for g in guard_edges(cfg, vn)] + ([norm(cond_in_stmt)] if cond_in_stmt is not None else [])
+        ck.finding('VALIDATE-ALWAYS', b.qualname, 'validation skipped on some path', b.module.rel, vn.line,
+                   f'`{norm(vc)[:70]}` only runs under {gs}: on the other path the method is called without binding its parameters, so a call '
+                   f'that a direct Python call could not bind (e.g. a missing required argument with empty params) runs the body / is reported '
+                   f'as -32000 instead of -32602')
+
+
 def _ctx_rules(ck: Check, prog: Program, b: FuncInfo) -> None:
     is_view = b.cls is not None and b.cls.name != 'Method'
     ctx_param = b.params[2].arg if len(b.params) > 2 else 'context'
@@ -192,16 +226,7 @@ def _ctx_rules(ck: Check, prog: Program, b: FuncInfo) -> None:
     if len(val_calls) != 1:
         raise AnalysisError(f'{b.qualname}: expected one validate_method call, found {len(val_calls)}')
     vn, vc = val_calls[0]
-    # VALIDATE-ALWAYS: every return of bind is preceded by the validation (no fast path that skips it)
-    rets = [n for n in cfg.stmt_nodes() if isinstance(n.ast, ast.Return)]
-    skipping = [r_ for r_ in rets if not cfg.dominated_by(r_, [vn])]
-    ck.ob('VALIDATE-ALWAYS', f'{short(b.qualname)}: parameters are bound/validated on every path before the call is prepared', not skipping)
-    for r_ in skipping:
-        gs = [norm(g.src.ast) + ':' + g.label for g in guard_edges(cfg, vn)]
-        ck.finding('VALIDATE-ALWAYS', b.qualname, 'validation skipped on some path', b.module.rel, vn.line,
-                   f'`{norm(vc)[:70]}` only runs under {gs}: on the other path the method is called without binding its parameters, so a call '
-                   f'that a direct Python call could not bind (e.g. a missing required argument with empty params) runs the body / is reported '
-                   f'as -32000 instead of -32602')
+    validate_always(ck, prog, b, cfg)
     # PARAMS-UNMODIFIED: the client's params reach the validator exactly as received
     pparam = b.params[1].arg
     passed = dotted(vc.args[1]) if len(vc.args) > 1 else (dotted(kwarg(vc, 'params')) if kwarg(vc, 'params') is not None else None)
@@ -497,6 +522,11 @@ def _bind_strict(ck: Check, prog: Program) -> None:
         forms = keep_formula(prog, sgf) or set()
         for fm in sorted(x for x in forms if x.startswith('parameter-rewritten:')):
             problems.append((sgf.node.lineno, f'signature() rewrites a kept parameter (`{fm.split(":", 1)[1]}`): the binder then accepts calls a direct Python call '
+                             f'cannot make (e.g. a keyword-only parameter filled from a positional list) or refuses ones it can'))
+    if sgf is not None:
+        from .c17 import rewritten_parameters
+        for line_, txt_ in rewritten_parameters(prog, sgf):
+            problems.append((line_, f'signature() rewrites a kept parameter (`{txt_}`): the binder then accepts calls a direct Python call '
                              f'cannot make (e.g. a keyword-only parameter filled from a positional list) or refuses ones it can'))
     # the filtered signature is a pure function of (method, exclude): a hand-rolled cache must key on both
     for sig in [m_ for m_ in (bv.methods.get('signature'), bv.methods.get('validate_method')) if m_ is not None]:
